@@ -60,7 +60,7 @@ Undeclared(m) == Exceptions \ {m.throws[i].s : i \in 1..Len(m.throws)}
 
 Outcomes(m) ==
   (IF m.void THEN {[k |-> "void"]} ELSE {[k |-> "val", v |-> v] : v \in RetVals(m)})
-  \cup {[k |-> "exc", i |-> i, v |-> v] : i \in 1..Len(m.throws), v \in UNION {ExcVals(m.throws[j].s) : j \in {i}}}
+  \cup UNION {{[k |-> "exc", i |-> i, v |-> v] : v \in ExcVals(m.throws[i].s)} : i \in 1..Len(m.throws)}
   \cup (IF m.void \/ P.vals # 0 THEN {}
         ELSE {[k |-> "exc", i |-> i, v |-> CHOOSE v \in ExcVals(m.throws[i].s) : TRUE, also |-> CHOOSE v \in RetVals(m) : TRUE] :
                 i \in 1..Len(m.throws)})
@@ -79,7 +79,7 @@ RawSeq == 77
 GInit == plan = 0 /\ Init
 
 Client ==
-  /\ Len(reqs) < P.max
+  /\ Len(reqs) < P.max /\ cli = Idle
   /\ \/ \E j \in 1..Len(P.methods) :
           LET r == <<P.methods[j][1], P.methods[j][2]>> IN
           \E a \in ArgVals(r) : SendCall(r, a, CALL, EncStruct(Meth(r).args, a))
